@@ -88,6 +88,10 @@ type vfWorld struct {
 	completion map[string]Value
 }
 
+// vfOptimizations: the four optimisation switches in the order of the option strings
+// ("1010" = ConstantFolding + FastEvaluation) used by all harnesses.
+var vfOptimizations = []CompileOption{ConstantFolding, ReduceNesting, FastEvaluation, Reordering}
+
 func vfIsBoolName(s string) bool {
 	return len(s) > 0 && (s[0] == 'b' || (len(s) > 1 && s[0] == 'K' && s[1] == 'B'))
 }
@@ -445,7 +449,7 @@ func (w *vfWorld) config(reg string, opts string) *Config {
 	for name, op := range w.ops {
 		conf.OperatorMap[name] = op
 	}
-	for i, o := range optimizations {
+	for i, o := range vfOptimizations {
 		conf.CompileOptions[o] = i < len(opts) && opts[i] == '1'
 	}
 	return conf
